@@ -1044,13 +1044,15 @@ impl AssemblyCode {
                     })),
                     Operation::Gt => {
                         let label3 = format!(".fixup{}", nb_fixes);
+                        // The branch that follows reads the flags of the same comparison: this
+                        // one must not be folded away with it by the optimizer
                         self.code.push(AsmLine::Instruction(AsmInstruction {
                             mnemonic: AsmMnemonic::BEQ,
                             dasm_operand: label3.clone(),
                             cycles: 2,
                             cycles_alt: Some(3),
                             nb_bytes: 2,
-                            protected: false,
+                            protected: true,
                         }));
                         if signed {
                             self.code.push(AsmLine::Instruction(AsmInstruction {
